@@ -240,20 +240,40 @@ func DecodeStream(r Getter, path *CycleCheck, x *Stream) (io.ReadCloser, error) 
 			applyCrypt = false
 		}
 	}
+	// Every layer of the chain is remembered so that Close can release all
+	// of them: a filter only sees its source as an io.Reader and so cannot
+	// close it, and some filters (DCTDecode) own a helper goroutine which
+	// stays blocked until their reader is closed.
+	var layers []io.Closer
 	if applyCrypt {
 		out, err = x.crypt.Decode(v, out, budget)
 		if err != nil {
 			return nil, src.promote(err)
 		}
+		layers = append(layers, out)
 	}
 
 	for _, fi := range filters {
 		out, err = fi.Decode(v, out, budget)
 		if err != nil {
+			closeLayers(layers)
 			return nil, src.promote(err)
 		}
+		layers = append(layers, out)
 	}
-	return &sourceAwareReader{inner: out, src: src}, nil
+	return &sourceAwareReader{inner: out, src: src, layers: layers}, nil
+}
+
+// closeLayers closes the layers of a filter chain, outermost first, and
+// returns the first error.
+func closeLayers(layers []io.Closer) error {
+	var first error
+	for i := len(layers) - 1; i >= 0; i-- {
+		if err := layers[i].Close(); err != nil && first == nil {
+			first = err
+		}
+	}
+	return first
 }
 
 // sourceErrChecker wraps the raw byte source underlying a decoded PDF
@@ -297,8 +317,9 @@ func (s *sourceErrChecker) promote(err error) error {
 // source error wins, so real IO failures surface to the caller even when
 // an intermediate filter layer has substituted its own content error.
 type sourceAwareReader struct {
-	inner io.ReadCloser
-	src   *sourceErrChecker
+	inner  io.ReadCloser
+	src    *sourceErrChecker
+	layers []io.Closer // every layer of the chain, innermost first
 }
 
 func (s *sourceAwareReader) Read(p []byte) (int, error) {
@@ -309,7 +330,13 @@ func (s *sourceAwareReader) Read(p []byte) (int, error) {
 	return n, err
 }
 
-func (s *sourceAwareReader) Close() error { return s.inner.Close() }
+// Close closes every layer of the filter chain, not only the outermost one.
+func (s *sourceAwareReader) Close() error {
+	if len(s.layers) == 0 {
+		return s.inner.Close()
+	}
+	return closeLayers(s.layers)
+}
 
 // GetFilters extracts the information contained in the /Filter and
 // /DecodeParms entries of a stream dictionary.
